@@ -7,7 +7,11 @@ Local Open Scope Z_scope.
 
 Inductive mq :=
 | QApi (os : list mop)
-| QVm (sf : surface) (maxh : N) (os : list vop).    (* GC-heap bytes taken as 0: see tools/props/c09.py *)
+| QVm (sf : surface) (maxh : N) (os : list vop)     (* GC-heap bytes taken as 0: see tools/props/c09.py *)
+(* tie plumbing only (not an operation of the model): run [pre], overwrite the charge with [b]
+   (hook ManualHeap::verif_set_bytes_allocated), then observe [post].  Drives the checked_add branch
+   of ManualHeap::alloc, which no real history can reach. *)
+| QApiForged (pre : list mop) (b : N) (post : list mop).
 
 Definition ecode (e : ekind) : Z :=
   match e with
@@ -41,4 +45,7 @@ Definition mobs (q : mq) : list Z :=
   match q with
   | QApi os => api_obs mh_empty os
   | QVm sf maxh os => vm_obs sf maxh mh_empty os
+  | QApiForged pre b post =>
+      let s := mh_exec mh_empty pre in
+      api_obs {| allocs := allocs s; free_list := free_list s; bytes := b |} post
   end.
